@@ -370,6 +370,53 @@ pub fn c13_worker(tier: &str, k: usize, n: usize, ctx: &mut Ctx) {
       }
     }
   }
+  // the unary laws once more with the wrapped source as a CHILD of a ConcatSource whose other child
+  // announces sources and names of its own first (so the parent's renumbering of source and name
+  // indices is not the identity), and with NAMED empty insertions
+  let nv = trees::named_variants();
+  let siblings: Vec<Term> = vec![nv[1].clone(), nv[4].clone(), Term::orig("a;b", "f4")];
+  for a in &pool {
+    if !st.mine() {
+      continue;
+    }
+    crate::set_current_case(a);
+    ctx.states += 1;
+    let len = crate::model::model_text(a).len() as u32;
+    let mut wrapped: Vec<(&str, Term, bool)> = vec![
+      ("replace_none", Term::replace(a.clone(), vec![]), false),
+      ("replace_none_boxed", Term::replace(Term::boxed(a.clone()), vec![]), false),
+      ("cached", Term::cached(a.clone()), false),
+      ("boxed", Term::boxed(a.clone()), false),
+      ("single_child_concat", Term::concat(vec![a.clone()]), false),
+    ];
+    for p in 0..=len + 1 {
+      wrapped.push(("replace_empty_insert_named", Term::replace(a.clone(), vec![Repl::new(p, p, "").named("zz")]), true));
+      wrapped.push(("replace_empty_insert", Term::replace(a.clone(), vec![Repl::new(p, p, "")]), true));
+    }
+    for (law, w, adv) in &wrapped {
+      if law.ends_with("_named") {
+        tc::c13_pair(ctx, law, a, w, *adv);
+        ctx.transitions += 1;
+      }
+      for sib in &siblings {
+        tc::c13_pair(ctx, &format!("{law}_as_second_child"), &Term::concat(vec![sib.clone(), a.clone()]), &Term::concat(vec![sib.clone(), w.clone()]), *adv);
+        tc::c13_pair(ctx, &format!("{law}_as_first_child"), &Term::concat(vec![a.clone(), sib.clone()]), &Term::concat(vec![w.clone(), sib.clone()]), *adv);
+        ctx.transitions += 2;
+      }
+    }
+    // a ReplaceSource with only empty (also named) insertions around a boxed two-child composite
+    for sib in &siblings {
+      let pair = Term::concat(vec![sib.clone(), a.clone()]);
+      let plen = crate::model::model_text(&pair).len() as u32;
+      for p in 0..=plen + 1 {
+        for named in [false, true] {
+          let r = if named { Repl::new(p, p, "").named("zz") } else { Repl::new(p, p, "") };
+          tc::c13_pair(ctx, if named { "replace_empty_insert_named_over_pair" } else { "replace_empty_insert_over_pair" }, &pair, &Term::replace(Term::boxed(pair.clone()), vec![r]), true);
+          ctx.transitions += 1;
+        }
+      }
+    }
+  }
   // grouping laws over all ordered triples
   for a in &pool {
     for b in &pool {
